@@ -14,6 +14,12 @@ CLAIMED = {
     "C12": ("exploration",
             "Seeded search over schedules of 2-6 actors signalling one scope (plain, shared-context child, isolated child) with AppendError/Kill/Stop/IsDone/Err/Errors, and of child creation+close racing with the end of the parent; oracle: no panic or fatal error, every appended error retained and reported by Err/Wait/Close, done exactly once, isolation of isolated children.",
             "Sampling. Data races on plain fields (the unsynchronised read of the error slice) are outside what serialised execution can observe."),
+    "C13": ("exploration",
+            "Sequential overlay histories on parent-child chains refined against a map-with-fall-through model; seeded schedules of 2-5 clients mixing locked read-modify-write sections with plain reads/writes on one data scope, the recorded history (a section is one operation, stamped with a global event counter) checked for linearizability against a sequential map with porcupine; N concurrent callers of the three get-or-create services must obtain one instance; happens-before probe on the data maps.",
+            "Sampling; histories <= 14 operations so the linearizability check stays tractable (timeouts are counted, never reported)."),
+    "C15": ("exploration",
+            "Seeded schedules of 2-6 holders with random lock maps (any read/write mix incl. empty and full) over 4 resource names on the real SharedMutex; interval exclusion checked at every entry; a deterministic independence probe (holder A parked inside, a compatible holder B must enter); any cycle of waiters is reported by the simulator's deadlock detector; the order in which a lock map is walked is a seeded choice.",
+            "Sampling. simrt.RWMutex follows Go's writer-preference algorithm, so lock-order and read-recursion deadlocks are detectable."),
 }
 
 NOT_APPLICABLE = {
